@@ -158,12 +158,12 @@ def run(ctx, n):
         st = rng.random() < 0.7
         row = {"k": t}
         try:
-            clean_text_values("survey", [row], strip_whitespace=st)
+            got = clean_text_values("survey", [row], strip_whitespace=st)[0]["k"]
         except PyXFormError:
-            pass  # the reference-syntax check runs after the cell has been cleaned
+            got = None  # malformed ${reference}: the cell is rejected, there is no cleaned value to compare
         mv = ctx.driver.call("spell.clean", s=t, strip=st)
-        if t and mv != row["k"]:
-            ctx.mismatch("Spell.cleanText vs clean_text_values", {"s": t, "strip": st}, row["k"], mv)
+        if t and got is not None and mv != got:
+            ctx.mismatch("Spell.cleanText vs clean_text_values", {"s": t, "strip": st}, got, mv)
         # ---- type / truth values
         ty = rng.choice([*aliases._type_alias_map, "text", "photo", "Image", "image ", rand_text(rng, 2)])
         if ctx.driver.call("spell.type", s=ty) != dealias_types([{"type": ty}])[0]["type"]:
